@@ -48,7 +48,7 @@ from collections import Counter
 from vlib import env
 from vlib.report import pmap
 from bounded import domains
-from oracles import iso, o07_ref
+from oracles import iso, o07_ref, o01_gaps, o01_families
 
 RULE = ('bounded: library mapping multisets == exhaustive reference enumerator on enumerated (pattern, target) pairs; '
         '_compile_query structural contract on every graph of the atlas; lazy_product == itertools.product on all small shapes')
@@ -107,9 +107,14 @@ def load_mol(d):
     return m
 
 
+_QDUMP = {}  # id(query built by this module) -> JSON-able recipe (the objects stay alive in the pattern lists)
+
+
 def dump_pat(p):
     from chython.containers import QueryContainer
     if isinstance(p, QueryContainer):
+        if id(p) in _QDUMP:
+            return _QDUMP[id(p)]
         return {'kind': 'smarts', 'smarts': str(p)}
     return dump_mol(p)
 
@@ -117,17 +122,96 @@ def dump_pat(p):
 def load_pat(d):
     if d['kind'] == 'smarts':
         from chython import smarts
-        return smarts(d['smarts'])
+        q = smarts(d['smarts'])
+        if d.get('remap'):
+            # masked atoms get a fresh number > 10**9 at every parse: address atoms by position
+            nums = list(q)
+            q = renumbered_query(q, {nums[i]: new for i, new in d['remap']}, d['smarts'])
+        return q
+    if d['kind'] == 'qmol':
+        return as_query(d['atoms'], d['bonds'])
+    if d['kind'] == 'qunion':
+        return query_union([load_pat(x) for x in d['parts']], d['inplace'])
     return load_mol(d)
+
+
+def scramble(m, r):
+    """the same molecule with atom numbers that are NOT 1..N in insertion order: atoms and bonds inserted in shuffled order, numbers = seeded
+    sample of 1..2999 (gaps, descending runs, > 999)"""
+    c = domains.rebuild(m, r)
+    nums = list(c)
+    c.remap(dict(zip(nums, r.sample(range(1, 3000), len(nums)))))
+    return c
+
+
+def as_query(atoms, bonds):
+    """QueryContainer built through the public API from plain records: add_atom(Element) (QueryElement.from_atom: element, isotope,
+    charge, radical) and add_bond(Bond) (QueryBond.from_bond: order) in the given insertion order with the given numbers"""
+    from chython.containers import QueryContainer
+    from chython.containers.bonds import Bond
+    from chython.periodictable import Element
+    q = QueryContainer('built:' + json.dumps([atoms, bonds]))
+    for n, sym, iso_, ch, rad in atoms:
+        q.add_atom(Element.from_symbol(sym)(iso_, charge=ch, is_radical=rad), n)
+    for n, k, o in bonds:
+        q.add_bond(n, k, Bond(o))
+    _QDUMP[id(q)] = {'kind': 'qmol', 'atoms': atoms, 'bonds': bonds}
+    _KEEP.append(q)
+    return q
+
+
+def query_twin(p, r, offset=5000):
+    """query twin of molecule p (order 1-3 bonds only): shuffled insertion order, sparse shuffled numbers"""
+    nums = list(p)
+    new = dict(zip(nums, r.sample(range(offset, offset + 4000), len(nums))))
+    atoms = [[new[n], a.atomic_symbol, a.isotope, a.charge, a.is_radical] for n, a in p.atoms()]
+    bonds = [[new[n], new[k], b.order] if r.random() < .5 else [new[k], new[n], b.order] for n, k, b in p.bonds()]
+    r.shuffle(atoms)
+    r.shuffle(bonds)
+    return as_query(atoms, bonds)
+
+
+def renumbered_query(q, mp, text):
+    """another instance of a parsed SMARTS: copy() + remap() to numbers unrelated to the text"""
+    nums = list(q)
+    c = q.copy()
+    c._smarts = f'{text} renumbered'  # Graph.copy() does not carry the text slot over (str() of the copy raises; not C07's business)
+    c.remap(mp)
+    _QDUMP[id(c)] = {'kind': 'smarts', 'smarts': text, 'remap': [[nums.index(n), v] for n, v in mp.items()]}
+    _KEEP.append(c)
+    return c
+
+
+def query_union(parts, inplace):
+    """multi-component query from queries with disjoint numbers: union() (copy) or |= (in place: the caches of the left operand must go)"""
+    u = parts[0]
+    if inplace:
+        u = u.copy()
+        u._smarts = 'union'
+        u._compiled_query  # fill the cache that the in-place union has to flush
+        for x in parts[1:]:
+            u.union(x, copy=False)
+    else:
+        for x in parts[1:]:
+            u = u.union(x)
+        u._smarts = 'union'
+    _QDUMP[id(u)] = {'kind': 'qunion', 'parts': [dump_pat(x) for x in parts], 'inplace': inplace}
+    _KEEP.append(u)
+    return u
+
+
+_KEEP = []
 
 
 def tup(mp):
     return tuple(sorted(mp.items()))
 
 
-def get_all(p, t, **kw):
+def get_all(p, t, switch=False, **kw):
+    """switch=True: leave QueryIsomorphism.get_mapping's `_cython` at its default, i.e. go through the real import switch (the compiled
+    module is not installed here: the ImportError fallback must behave exactly like _cython=False)"""
     from chython.containers import QueryContainer
-    if isinstance(p, QueryContainer):
+    if isinstance(p, QueryContainer) and not switch:
         kw['_cython'] = False
     # collect the yielded dict objects FIRST and convert afterwards: a caller that keeps the results must see distinct, final mappings
     # (a generator that reuses / mutates a yielded dict is a defect that eager conversion would hide)
@@ -160,7 +244,7 @@ def connected_subsets(bonds, kmax):
 def cut(t, subset, r, offset=100):
     """pattern molecule = induced subgraph of t on subset: independent rebuild with shuffled insertion order and fresh numbers"""
     sub = t.substructure(subset, recalculate_hydrogens=False)
-    p = domains.rebuild(sub, r, keep_stereo=False)
+    p = domains.rebuild(sub, r, keep_stereo=r.random() < .5)  # labels of a molecule pattern are ignored by a search without match_stereo
     nums = list(p)
     new = [offset + i for i in range(len(nums))]
     r.shuffle(new)
@@ -285,12 +369,18 @@ def check_compile_witness(w):
 
 
 # ------------------------------------------------------------------------------------------------- contract (3) lazy_product
-def lazy_contract(lists):
-    """None or text; lists: tuple of lists of items"""
+def lazy_contract(lists, plain=False):
+    """None or text; lists: tuple of lists of items; plain=True: the arguments are re-iterable collections (list / tuple / range in turn),
+    laziness is not observable then"""
     from chython._functions import lazy_product
     pulls = [0] * len(lists)
 
     def gen(i, lst):
+        if plain:
+            return [list, tuple, lambda x: range(len(x)) if list(x) == list(range(len(x))) else list(x)][i % 3](lst)
+        return gen_(i, lst)
+
+    def gen_(i, lst):
         for x in lst:
             pulls[i] += 1
             yield x
@@ -344,6 +434,28 @@ def lazy_part(run):
                 if bad:
                     violation(f'lazy_product:values={json.dumps(lists)}', f'lazy_product over {lists}: {bad}',
                                   witness={'contract': 'lazy', 'lists': lists}, native=bad)
+    # audit extension: four generators (patterns with four components) with 0..3 items; plain re-iterable arguments
+    n4 = 0
+    for shape in itertools.product(range(0, 4), repeat=4):
+        lists = tuple([(i, j) for j in range(s)] for i, s in enumerate(shape))
+        bad = lazy_contract(lists)
+        n4 += 1
+        run.case(1, key=f'lazy:{shape}' if all(shape) and max(shape) > 1 else None)
+        if bad:
+            violation(f'lazy_product:shape={list(shape)}', f'lazy_product over generators of sizes {shape}: {bad}',
+                      witness={'contract': 'lazy', 'lists': lists}, native=bad)
+    for k in range(0, 4):
+        for shape in itertools.product(range(0, 4), repeat=k):
+            for ints in (False, True):
+                lists = tuple([j if ints else (i, j) for j in range(s)] for i, s in enumerate(shape))
+                bad = lazy_contract(lists, plain=True)
+                n4 += 1
+                run.case(1)
+                if bad:
+                    violation(f'lazy_product:plain:shape={list(shape)}:{ints}', f'lazy_product over plain collections (list/tuple/range) of sizes '
+                              f'{shape}: {bad}', witness={'contract': 'lazy', 'lists': lists, 'plain': True}, native=bad)
+    run.bound(f'lazy_product, audit extension: every shape of 4 one-shot generators with 0..3 items (256 shapes); every shape of <= 3 plain '
+              f're-iterable arguments (list / tuple / range by position) with 0..3 items: {n4} calls, exhaustive')
     run.bound(f'lazy_product: every shape of <= 3 one-shot generators with 0..4 distinct items each (156 shapes) and every tuple of <= 3 '
               f'lists over {{0,1}} with <= 3 items (repeated values): {n} calls, exhaustive')
 
@@ -389,7 +501,7 @@ def pair_contracts(p, t, r, pname, tname, xcheck, out, scopes=True):
     out[0] += 1
     # filter
     try:
-        gotf = get_all(p, t)
+        gotf = get_all(p, t, switch=True)
     except Exception as e:
         gotf = None
         fire('filter', f'raised {type(e).__name__}: {e}', repr(e))
@@ -425,14 +537,18 @@ def pair_contracts(p, t, r, pname, tname, xcheck, out, scopes=True):
             if rest:
                 ss.append(img + r.sample(rest, max(1, len(rest) // 2)))    # list on purpose: any collection is accepted
                 ss.append(set(tn) - {r.choice(img)})                       # everything but one matched atom
-        ss.append(set(r.sample(tn, max(1, (len(tn) * 3) // 5))))
-        ss.append([x for x in tn if r.random() < .5] or [tn[0]])
+            # a tuple that also holds numbers that are no atoms of the target (a scope is any collection of numbers)
+            ss.append(tuple(img) + (max(tn) + 7, 0, -3) + tuple(r.sample(rest, len(rest) // 3)))
+        ss.append(frozenset(r.sample(tn, max(1, (len(tn) * 3) // 5))))
+        ss.append(dict.fromkeys([x for x in tn if r.random() < .5] or [tn[0]]).keys())
         for s in ss:
             sset = set(s)
             expd = {e for e in ref if all(v in sset for _, v in e)}
             try:
                 gs = get_all(p, t, automorphism_filter=False, searching_scope=s)
-                gf = get_all(p, t, searching_scope=s)
+                gf = get_all(p, t, searching_scope=s, switch=True)
+                if set(s) != sset:  # the caller's collection is an input, not a work area
+                    fire('scope', f'the scope collection was modified by the search: {sorted(s)}', sorted(s), scope=sset)
             except Exception as e:
                 fire('scope', f'raised {type(e).__name__}: {e}', repr(e), scope=sset)
                 continue
@@ -462,7 +578,9 @@ def auto_contract(m, name, out, whole=True):
     """get_automorphism_mapping vs reference; whole=False: only automorphisms that map every component onto itself are expected"""
     keys = dict(m._chiral_morgan)
     try:
-        got = [tup(x) for x in m.get_automorphism_mapping()]
+        got = list(m.get_automorphism_mapping())  # collect the yielded objects first, convert afterwards (see get_all)
+        got = [tup(x) for x in got]
+        flag = m.is_automorphic()
     except Exception as e:
         got = None
         bad = f'raised {type(e).__name__}: {e}'
@@ -483,6 +601,8 @@ def auto_contract(m, name, out, whole=True):
             if ref2 != ref:
                 bad = (f'atom classes are not the constitutional symmetry classes: {len(ref)} automorphisms under _chiral_morgan labels, '
                        f'{len(ref2)} under (element, isotope, charge, radical, H)')
+        if not bad and flag != bool(got):
+            bad = f'is_automorphic() is {flag} but get_automorphism_mapping() yields {len(got)} mappings'
         if not bad and ref:
             out[1].append(f'auto:{name}')
     out[0] += 1
@@ -525,6 +645,7 @@ def _target_item(i):
         j = r.randrange(len(d['atoms']))
         d3 = {**d, 'atoms': [list(x) for x in d['atoms']]}
         d3['atoms'][j][1] = 'N' if d3['atoms'][j][1] == 'C' else 'C'
+        d3['atoms'][j][2] = None  # the isotope number of the old element need not exist for the new one
         near.append((f'near-atom{j}:{pn}', load_mol(d3)))
     pats.extend(near)
     # whole target against itself (is_equal positive branch)
@@ -541,18 +662,45 @@ def _target_item(i):
             break
         (n1, p1), (n2, p2) = r.choice(sm), r.choice(sm)
         pats.append((f'{n1} . {n2}', union(p1, p2)))
+    # (c2) audit extension: three- and four-component patterns (more components than the target has included)
+    for _ in range(_N_THREE):
+        if len(sm) < 2:
+            break
+        ps = [r.choice(sm) for _ in range(4 if r.random() < .25 else 3)]
+        u = ps[0][1]
+        for _, x in ps[1:]:
+            u = union(u, x)
+        if len(u) <= 8:
+            pats.append((' . '.join(n for n, _ in ps), u))
+    # (c3) audit extension: query twins built through QueryContainer.add_atom(Element) / add_bond(Bond) on sparse shuffled numbers
+    # (aromatic bonds have no plain query twin here: order 4 needs ring context), unions of them (copying and in-place)
+    qt = []
+    cand = [x for x in pats if 1 <= len(x[1]) <= 5 and all(b.order in (1, 2, 3) for *_, b in x[1].bonds())]
+    for pn, p in r.sample(cand, min(_N_QTWIN, len(cand))):
+        qt.append((f'query-twin:{pn}', query_twin(p, r)))
+    if len(qt) >= 3:
+        a, b, c = r.sample(qt, 3)
+        if len({*a[1], *b[1], *c[1]}) == len(a[1]) + len(b[1]) + len(c[1]) <= 8:
+            qt.append((f'union({a[0]} | {b[0]} | {c[0]})', query_union([a[1], b[1], c[1]], inplace=False)))
+            qt.append((f'inplace-union({b[0]} | {a[0]})', query_union([b[1], a[1]], inplace=True)))
     nx = 0
-    for pn, p in pats:
+    for pn, p in pats + qt:
         ref = pair_contracts(p, t, r, pn, tname, small and len(p) <= 5 and (nx % _XCHECK == 0), out)
         nx += 1
         if i % 37 == 0 and nx == 3:
             out[2].append({'contract': 'search', 'pattern': pn, 'target': tname, 'embeddings': len(ref)})
     # (d) queries
-    for s in SMARTS:
+    for js, s in enumerate(SMARTS):
         q = smarts(s)
         if len(q) > len(t) + 1:
             continue
-        ref = pair_contracts(q, t, r, f'smarts({s})', tname, small and len(q) <= 5 and (nx % _XCHECK == 0), out, scopes=bool(nx % 2))
+        qn = f'smarts({s})'
+        if (i + js) % 3 == 0:  # audit extension: every third (target, SMARTS) pair uses a re-numbered instance of the query
+            nums = list(q)
+            mp = dict(zip(nums, r.sample(range(20, 900), len(nums))))
+            q = renumbered_query(q, mp, s)
+            qn = f'smarts({s})@{list(q)}'
+        ref = pair_contracts(q, t, r, qn, tname, small and len(q) <= 5 and (nx % _XCHECK == 0), out, scopes=bool(nx % 2))
         nx += 1
         if ref:
             out[1].append(f'q:{s}')
@@ -566,6 +714,352 @@ def _multi_auto_item(s):
     out = [0, [], [], []]
     auto_contract(m, s, out, whole=True)
     return tuple(out)
+
+
+# ------------------------------------------------------------------------ audit extension: stereo filter of QueryIsomorphism.get_mapping
+# every query has marks of ONE kind; '1' = exactly one mark (partition contract), '+' = several marks (weaker contracts)
+STEREO_Q = ['[C@](C)(N)O', '[C@@](C)(N)O', 'N[C@](C)O', 'C[C@](N)O', '[C@]([A])([A])[A]', '[C@@]([A])([A])([A])[A]', '[C@](C)(C)(N)O',
+            '[C@]([C;D1])(O)[C;D3,D4]', '[A][C@]([A])[N,O]', '[C@](C)(N)(O)S', '[C@](C)(N)O.[O;D1]', '[O;D1].[C@@](C)(N)O', 'O[C@](C)CC',
+            '[C@](C)(O)[C@](C)O', '[C@](C)(O)[C@@](C)O', 'C[C@](O)-[C;D3]', '[C;D1][C@]([O,N])[C;D2,D3]',
+            'C/C=C/C', 'C/C=C\\C', '[A]/C=C/[A]', '[A]/C=C\\[A]', 'N/C=C/O', 'C/C=C/[N,O]', 'C/C(N)=C/O', 'C/C=C/C.[O;D1]', 'C/C=C/C=C/C', 'C/C=C/C=C\\C',
+            'CC=[C@]=CC', 'CC=[C@@]=CC', '[A]C=[C@]=C[A]']
+STEREO_T = ['C[C@H](N)O', 'C[C@@H](N)O', 'CC(N)O', 'C[C@](N)(O)S', 'CC[C@](C)(N)O', 'CC[C@@](C)(N)O', 'N[C@@H](C)C(=O)O', 'C[C@H](O)[C@@H](O)C',
+            'C[C@H](O)[C@H](O)C', 'C[C@H](O)C(O)C', 'C[C@H](N)O.C[C@@H](N)O', 'C[C@H](N)O.O', 'O[C@H]1CC[C@@H](O)CC1', 'C[C@]1(O)CCC[C@H]1N',
+            'C[C@H](N)CC(N)C', 'O[C@@](C)(CC)C(C)C', 'C[C@@H]1OC1', 'C[C@H](N)[C@@H](O)[C@H](C)O',
+            'C/C=C/C', 'C/C=C\\C', 'CC=CC', 'C/C=C/C=C/C', 'C/C=C/C=C\\C', 'N/C=C/O', 'N/C=C\\O', 'C/C(N)=C/O', 'C/C(N)=C\\O', 'C/C=C/C.C/C=C\\C', 'C/C=C/C.O',
+            'C/C=C/N', 'C/C=C/[C@H](N)O', 'CC=[C@]=CC', 'CC=[C@@]=CC', 'CC=C=CC', 'OC=[C@]=CN', 'CC=[C@]=CC.CC=[C@@]=CC']
+
+
+def flip(t):
+    """mirror twin of a molecule: a copy() (same numbers, same neighbour order - the labels are relative to it) with every atom label and
+    every bond label inverted"""
+    c = t.copy()
+    for n, a in c.atoms():
+        if a.stereo is not None:
+            a._stereo = not a._stereo
+    for *_, b in c.bonds():
+        if b.stereo is not None:
+            b._stereo = not b._stereo
+    c.flush_cache()
+    if [(n, a.stereo) for n, a in c.atoms()] != [(n, None if a.stereo is None else not a.stereo) for n, a in t.atoms()] or \
+            [list(x) for x in c._bonds.values()] != [list(x) for x in t._bonds.values()]:
+        raise RuntimeError('flip: copy() did not keep order / labels')  # harness precondition
+    return c
+
+
+def stereo_contract(q, t, r, qname, tname, out):
+    """clause `stereo` (module docstring); the stereo-blind reference set is the reference enumerator's (it only uses ==, which ignores marks)"""
+    marks_a = [n for n, a in q.atoms() if getattr(a, 'stereo', None) is not None]
+    marks_b = [(n, m) for n, m, b in q.bonds() if b.stereo is not None]
+    if not marks_a and not marks_b:
+        raise RuntimeError(f'{qname} carries no stereo mark')  # harness error
+    ref = o07_ref.embeddings(q, t)
+    tm = flip(t)
+    viol = out[3]
+
+    def fire(clause, what, native, key=None):
+        if len(viol) < MAXV:
+            viol.append({'key': key or f'{clause}:{qname}>>{tname}', 'what': f'{clause}: pattern {qname} target {tname}: {what}',
+                         'witness': {'contract': 'stereo', 'pattern': dump_pat(q), 'target': dump_mol(t)}, 'native': native})
+    try:
+        got = get_all(q, t, automorphism_filter=False)
+        gotm = get_all(q, tm, automorphism_filter=False)
+        gotf = get_all(q, t, switch=True)
+        ops = {'<=': q <= t, 'is_substructure': q.is_substructure(t), 'rev>=': t >= q, '<': q < t, 'is_equal': q.is_equal(t)}
+    except Exception as e:
+        fire('stereo', f'raised {type(e).__name__}: {e}', repr(e))
+        out[0] += 1
+        return
+    gs, gms = set(got), set(gotm)
+
+    def labelled(e):
+        d = dict(e)
+        return (all(t._atoms[d[n]].stereo is not None for n in marks_a) and
+                all(t._bonds[d[n]][d[m]].stereo is not None for n, m in marks_b))
+    lab = {e for e in ref if labelled(e)}
+    if len(got) != len(gs) or not gs <= ref:
+        fire('stereo', f'{len(got)} mappings, {len(gs)} distinct, {len(gs - ref)} of them are no embeddings at all', got[:20])
+    elif not gs <= lab:
+        fire('stereo', 'a marked query atom / bond is mapped to an unlabelled one', sorted(gs - lab)[:10])
+    elif gs & gms:
+        fire('stereo', f'{len(gs & gms)} mappings survive on the target and on its mirror image', sorted(gs & gms)[:10])
+    elif len(marks_a) + len(marks_b) == 1 and (gs | gms) != lab:
+        fire('stereo', f'one mark: {len(lab)} reference embeddings reach a labelled atom / bond, but target and mirror image together '
+                       f'accept {len(gs | gms)}', {'target': got[:20], 'mirror': gotm[:20]})
+    else:
+        # filtered search: one mapping per image set of the unfiltered result
+        fi = [frozenset(v for _, v in x) for x in gotf]
+        want = {frozenset(v for _, v in x) for x in gs}
+        if not set(gotf) <= gs or len(set(fi)) != len(fi) or set(fi) != want:
+            # family predicate (independent of the outcome's detail): the lost image sets are reached by >= 2 reference embeddings, i.e. the
+            # image set was entered into `seen` by an embedding that the stereo test rejected afterwards
+            lost = want - set(fi)
+            multi = lost and set(gotf) <= gs and len(set(fi)) == len(fi) and not set(fi) - want and \
+                all(sum(1 for e in ref if frozenset(v for _, v in e) == im) >= 2 for im in lost)
+            fire('filter', f'filtered search returns {len(gotf)} mappings / {len(set(fi))} image sets, the unfiltered result has {len(want)} '
+                           f'image sets', gotf[:20], key='filter:stereo-mark-tested-after-image-set-dedup' if multi else None)
+        exp = {'<=': bool(gs), 'is_substructure': bool(gs), 'rev>=': bool(gs), '<': bool(gs) and len(q) < len(t),
+               'is_equal': bool(gs) and len(q) == len(t)}
+        if ops != exp:
+            fire('ops', f'operators give {ops}, the mapping set says {exp}', ops)
+        if gs:
+            e0 = min(gs)
+            tn = list(t)
+            sc = {v for _, v in e0} | set(r.sample(tn, len(tn) // 2))
+            expd = {e for e in gs if all(v in sc for _, v in e)}
+            g2 = get_all(q, t, automorphism_filter=False, searching_scope=sc)
+            if Counter(g2) != Counter(expd):
+                fire('scope', f'scope {sorted(sc)}: {len(g2)} mappings, expected {len(expd)}', g2[:20])
+            out[1].append(f'stereo:{qname}>>{tname}')
+        if gms:
+            out[1].append(f'stereo-mirror:{qname}>>{tname}')
+    out[0] += 4
+
+
+def _stereo_item(k):
+    from chython import smarts, smiles
+    qs = _STQ[k]
+    r = domains.rnd(f'b07st{k}')
+    out = [0, [], [], []]
+    for j, ts in enumerate(_STT):
+        t = smiles(ts)
+        if (j + k) % 2:
+            t = scramble_keep(t, r)
+        q = smarts(qs)
+        qn = f'smarts({qs})'
+        if (j + k) % 3 == 0:
+            nums = list(q)
+            q = renumbered_query(q, dict(zip(nums, r.sample(range(20, 900), len(nums)))), qs)
+            qn += f'@{list(q)}'
+        stereo_contract(q, t, r, qn, f'{ts}[{",".join(map(str, t))}]', out)
+    return tuple(out)
+
+
+# generic marked queries run over corpus molecules that carry labels (rings, fused systems, several centres)
+STEREO_Q_CORPUS = ['[C@]([A])([A])[A]', '[C@@]([A])([A])([A])[A]', '[C@]([C])([N,O])[A]', '[A][C@@]([A])[N,O]', '[C;r5,r6;@]([A])([A])[A]',
+                   '[A]/C=C/[A]', '[A]/C=C\\[A]', 'C/C=C/C', '[C@]([A])([A])[A].[O;D1]']
+
+
+def _stereo_corpus_item(k):
+    from chython import smarts, smiles
+    r = domains.rnd(f'b07stc{k}')
+    out = [0, [], [], []]
+    ts = _STC[k]
+    t = smiles(ts)
+    if k % 2:
+        t = scramble_keep(t, r)
+    for j, qs in enumerate(STEREO_Q_CORPUS):
+        q = smarts(qs)
+        qn = f'smarts({qs})'
+        if (j + k) % 3 == 0:
+            nums = list(q)
+            q = renumbered_query(q, dict(zip(nums, r.sample(range(20, 900), len(nums)))), qs)
+            qn += f'@{list(q)}'
+        stereo_contract(q, t, r, qn, f'{ts}[{",".join(map(str, t))}]', out)
+    return tuple(out)
+
+
+_STC = []
+
+
+def scramble_keep(t, r):
+    """re-numbered copy made by the library itself (copy + remap keep the configuration; a rebuild in another order would not)"""
+    c = t.copy()
+    nums = list(c)
+    c.remap(dict(zip(nums, r.sample(range(1, 3000), len(nums)))))
+    return c
+
+
+_STQ = []
+_STT = []
+
+
+# ------------------------------------------------------------------------ audit extension: match_stereo=True of MoleculeIsomorphism.get_mapping
+# (pattern, target): whole molecules only (identical / meso / enantiomer / diastereomer / cis-trans pairs; no allenes: RDKit does not perceive them).  Expected number of image
+# sets under match_stereo=True = number of target components whose RDKit canonical isomeric SMILES equals the pattern's (RDKit: trusted oracle)
+MS_TABLE = [('C[C@H](N)O', 'C[C@H](N)O'), ('C[C@H](N)O', 'C[C@@H](N)O'), ('N[C@@H](C)O', 'C[C@H](N)O'), ('O[C@H](C)N', 'C[C@H](N)O'),
+            ('O[C@@H](C)N', 'C[C@H](N)O'), ('C[C@H](N)O', 'C[C@H](N)O.C[C@@H](N)O'), ('C[C@@H](N)O', 'C[C@H](N)O.C[C@@H](N)O'),
+            ('C[C@H](O)[C@@H](O)C', 'C[C@@H](O)[C@H](O)C'), ('C[C@H](O)[C@H](O)C', 'C[C@@H](O)[C@@H](O)C'),
+            ('C[C@H](O)[C@H](O)C', 'C[C@H](O)[C@H](O)C'), ('C[C@H](O)[C@H](O)C', 'C[C@H](O)[C@@H](O)C'),
+            ('C/C=C/C', 'C/C=C/C'), ('C/C=C/C', 'C/C=C\\C'), ('C/C=C\\C', 'C\\C=C/C'), ('C/C=C/C', 'C/C=C/C.C/C=C\\C'), ('C/C=C\\C', 'C/C=C/C.O'),
+            ('N[C@@H](C)C(=O)O', 'C[C@H](N)C(=O)O'), ('N[C@@H](C)C(=O)O', 'C[C@@H](N)C(=O)O'), ('C[C@H](N)/C=C/C', 'C[C@H](N)/C=C\\C'),
+            ('C[C@H](N)/C=C/C', 'C/C=C/[C@@H](N)C'), ('C[C@H](N)/C=C/C', 'C/C=C/[C@H](N)C')]
+
+
+def ms_contract(p, t, pname, tname, out, complete):
+    """clause `ms` (module docstring)"""
+    ref = o07_ref.embeddings(p, t)
+    viol = out[3]
+
+    def fire(what, native):
+        if len(viol) < MAXV:
+            viol.append({'key': f'ms:{pname}>>{tname}', 'what': f'ms: match_stereo=True, pattern {pname} target {tname}: {what}',
+                         'witness': {'contract': 'ms', 'pattern': dump_mol(p), 'target': dump_mol(t), 'complete': complete}, 'native': native})
+    try:
+        gf = list(p.get_mapping(t, match_stereo=True))
+        ga = list(p.get_mapping(t, match_stereo=True, automorphism_filter=False))
+        gf, ga = [tup(x) for x in gf], [tup(x) for x in ga]
+    except Exception as e:
+        fire(f'raised {type(e).__name__}: {e}', repr(e))
+        out[0] += 1
+        return None
+    fi = [frozenset(v for _, v in x) for x in gf]
+    rimgs = {frozenset(v for _, v in x) for x in ref}
+    if not set(gf) <= ref or not set(ga) <= ref:
+        fire(f'{len(set(gf) - ref)} filtered / {len(set(ga) - ref)} unfiltered mappings are no embeddings', (sorted(set(gf + ga) - ref))[:10])
+    elif len(set(fi)) != len(fi):
+        fire(f'{len(fi)} filtered mappings on {len(set(fi))} image sets', gf[:20])
+    elif len(set(ga)) != len(ga):
+        fire(f'{len(ga)} unfiltered mappings, {len(set(ga))} distinct', ga[:20])
+    elif {frozenset(v for _, v in x) for x in ga} != set(fi):
+        fire('filtered and unfiltered search reach different image sets', {'filtered': gf[:10], 'unfiltered': ga[:10]})
+    elif complete and set(fi) != rimgs:
+        fire(f'no stereo label anywhere: {len(set(fi))} image sets returned, reference has {len(rimgs)}', gf[:20])
+    elif complete and set(ga) != ref:
+        fire(f'no stereo label anywhere: {len(ga)} unfiltered mappings, reference has {len(ref)}', ga[:20])
+    elif ref and len(p) >= 2:
+        out[1].append(f'ms:{pname}>>{tname}')
+    out[0] += 2
+    return set(fi)
+
+
+def has_labels(m):
+    return any(a.stereo is not None for _, a in m.atoms()) or any(b.stereo is not None for *_, b in m.bonds())
+
+
+def _ms_item(i):
+    kind, name, t = _MST[i]
+    r = domains.rnd(f'b07ms{i}')
+    out = [0, [], [], []]
+    tname = f'{name}[{",".join(map(str, t))}]'
+    subs = [s for s in connected_subsets(t._bonds, 5) if len(s) >= 2]
+    if len(subs) > _N_MS:
+        subs = r.sample(subs, _N_MS)
+    for s in subs + [frozenset(t)]:
+        sub = t.substructure(s)  # hydrogens recalculated: the pattern is a molecule in its own right
+        p = domains.rebuild(sub, r)
+        nums = list(p)
+        p.remap(dict(zip(nums, r.sample(range(100, 999), len(nums)))))
+        connected = len(set(o07_ref.components(p._bonds).values())) == 1
+        if connected and has_ring(p):
+            # match_stereo compares the pattern with the matched subgraph through their canonical strings (get_fast_mapping): C01's documented
+            # gaps and C01's recorded defect families (independent predicates on the pattern, oracles/o01_*) are not C07's business
+            orb = iso.orbits(p)
+            if any(o01_gaps.gaps(p)) or o01_families.alternating_ring_tie(p, orb) or o01_families.symmetric_spiro(p, orb) or \
+                    o01_families.morgan_incomplete(p, orb):
+                out[1].append('ms-c01-gap')
+                connected = False
+        ms_contract(p, t, f'sub{sorted(s)}:{p}[{",".join(map(str, p))}]', tname, out, complete=connected and not has_labels(t) and not has_labels(p))
+    return tuple(out)
+
+
+def _ms_table_item(k):
+    from chython import smiles
+    from oracles.o12_stereo import rd_can
+    ps, ts = MS_TABLE[k]
+    n = sum(1 for x in ts.split('.') if rd_can(x, False) == rd_can(ps, False))
+    r = domains.rnd(f'b07mst{k}')
+    out = [0, [], [], []]
+    p, t = smiles(ps), smiles(ts)
+    p = scramble_keep(p, r)
+    if k % 2:
+        t = scramble_keep(t, r)
+    imgs = ms_contract(p, t, f'{ps}[{",".join(map(str, p))}]', f'{ts}[{",".join(map(str, t))}]', out, complete=False)
+    if imgs is not None and len(imgs) != n and len(out[3]) < MAXV:
+        out[3].append({'key': f'ms-table:{ps}>>{ts}', 'what': f'ms: match_stereo=True, pattern {ps} target {ts}: {len(imgs)} image sets, '
+                       f'RDKit identifies {n} target components with the pattern', 'witness': {'contract': 'ms-table', 'k': k}, 'native': sorted(map(sorted, imgs))})
+    return tuple(out)
+
+
+_MST = []
+_N_MS = 10
+
+
+# ------------------------------------------------------------------------ audit extension: call sequences
+def _seq_item(k):
+    """search - edit - search: after every public edit of the pattern or of the target the search answers for the CURRENT graphs; generators
+    of one pattern consumed interleaved do not disturb each other"""
+    from chython import smarts
+    r = domains.rnd(f'b07seq{k}')
+    out = [0, [], [], []]
+    ps, ts, query = SEQ[k]
+    t = domains.parse(ts)
+    if k % 2:
+        t = scramble(t, r)
+    if query:
+        p = smarts(ps)
+    else:
+        p = domains.parse(ps)
+        p.remap(dict(zip(list(p), r.sample(range(100, 999), len(p)))))
+    step = [0]
+
+    def look(what):
+        step[0] += 1
+        pair_contracts(p, t, r, f'seq{k}.{step[0]}({what}):{"smarts" if query else "mol"}[{",".join(map(str, p))}]',
+                       f'{ts}->[{",".join(map(str, t))}]', False, out, scopes=step[0] % 2 == 0)
+    look('start')
+    a = r.choice(list(p))
+    n = p.add_atom('O')
+    look('pattern.add_atom')                     # a new one-atom component
+    p.add_bond(a, n, 1)
+    look('pattern.add_bond')
+    m = p.add_atom('C', max(p) + r.randint(2, 50))
+    p.add_bond(n, m, 1)
+    look('pattern.add_atom+add_bond')
+    if not query:                                # QueryContainer has no delete methods
+        p.delete_bond(a, n)
+        look('pattern.delete_bond')              # two components now
+        p.delete_atom(m)
+        look('pattern.delete_atom')
+    nums = list(p)
+    p.remap(dict(zip(nums, r.sample(range(1000, 1999), len(nums)))))
+    look('pattern.remap')
+    # target edits: join two components / open a ring / split / delete / renumber
+    comp = o07_ref.components(t._bonds)
+    other = [x for x in t if comp[x] != comp[next(iter(t))]]
+    if other:
+        t.add_bond(next(iter(t)), other[0], 1)
+        look('target.add_bond joining components')
+    x, y, _ = r.choice(list(t.bonds()))
+    t.delete_bond(x, y)
+    look('target.delete_bond')
+    t.delete_atom(r.choice(list(t)))
+    look('target.delete_atom')
+    z = t.add_atom('O')
+    t.add_bond(z, r.choice([x for x in t if x != z]), 1)
+    look('target.add_atom+add_bond')
+    nums = list(t)
+    t.remap(dict(zip(nums, r.sample(range(3000, 3999), len(nums)))))
+    look('target.remap')
+    # interleaved generators
+    t2 = domains.parse('CCOC(C)=O.CCN')
+    kw = {'_cython': False} if query else {}
+    gens = [p.get_mapping(t, automorphism_filter=False, **kw), p.get_mapping(t2, automorphism_filter=False, **kw), p.get_mapping(t, **kw)]
+    got = [[], [], []]
+    live = [0, 1, 2]
+    while live:
+        for j in list(live):
+            try:
+                got[j].append(next(gens[j]))
+            except StopIteration:
+                live.remove(j)
+    got = [[tup(x) for x in g] for g in got]
+    r1, r2 = o07_ref.embeddings(p, t), o07_ref.embeddings(p, t2)
+    f3 = [frozenset(v for _, v in x) for x in got[2]]
+    if Counter(got[0]) != Counter(r1) or Counter(got[1]) != Counter(r2) or not set(got[2]) <= r1 or len(set(f3)) != len(f3) or \
+            set(f3) != {frozenset(v for _, v in x) for x in r1}:
+        out[3].append({'key': f'seq-interleaved:{k}:{ps}>>{ts}', 'what': f'seq: three generators of pattern {ps} consumed interleaved return '
+                       f'{[len(g) for g in got]} mappings, references have {len(r1)}, {len(r2)} and {len(set(map(frozenset, [[v for _, v in x] for x in r1])))} image sets',
+                       'witness': {'contract': 'seq', 'k': k}, 'native': [g[:10] for g in got]})
+    out[0] += 3
+    out[1].append(f'seq:{k}')
+    for v in out[3]:
+        v['witness'] = {'contract': 'seq', 'k': k}  # the edited graphs are reproduced by re-running the scripted sequence
+    return tuple(out)
+
+
+SEQ = [('CC', 'CCO.CC=O.OCCO', False), ('C=O', 'CC(=O)OC.CC=O', False), ('C1CC1', 'C1CC1CO.C1CC1', False), ('CN', 'NCCN.CNC', False),
+       ('[C;D1]-[O,N]', 'CCO.CC=O.OCCO', True), ('C-,=[O,N]', 'CC(=O)OC.CC=O', True), ('[A]1[A][A]1', 'C1CC1CO.C1OC1', True), ('C.[O,N]', 'NCCN.CNC.O', True)]
 
 
 def _fragment(m, r, size):
@@ -592,10 +1086,12 @@ _N_TWO = 6
 _XCHECK = 3
 _NORD = 12
 _CAP_NEAR = 60
+_N_THREE = 5
+_N_QTWIN = 8
 
 
 def bounded(run):
-    global _CAP_SELF, _N_FOREIGN, _N_TWO, _XCHECK, _NORD, _CAP_NEAR
+    global _CAP_SELF, _N_FOREIGN, _N_TWO, _XCHECK, _NORD, _CAP_NEAR, _N_THREE, _N_QTWIN, _N_MS
     env.setup()
     import networkx as nx
     thorough = run.tier == 'thorough'
@@ -644,6 +1140,8 @@ def bounded(run):
     _N_TWO = 16 if thorough else 8
     _XCHECK = 1 if thorough else 3
     _CAP_NEAR = 300 if thorough else 60
+    _N_THREE = 10 if thorough else 5
+    _N_QTWIN = 16 if thorough else 8
     kw = dict(elements=('C', 'C', 'N', 'O'), p_double=.3, p_triple=0.)
     _TARGETS.clear()
     _POOL.clear()
@@ -660,6 +1158,8 @@ def bounded(run):
         _TARGETS.append(('fixed', f'fixed:{x}', domains.parse(x)))
     for x in FIXED_RAW:
         _TARGETS.append(('fixed', f'kekule:{x}', smiles(x)))
+    for x in FIXED2:
+        _TARGETS.append(('fixed', f'fixed2:{x}', smiles(x)))  # as read (no kekule/thiele round): labels and radicals as the reader gives them
     # multi-component targets: unions of 2..3 small decorated molecules, identical components included
     small = [m for g, m in deco if len(m) <= 4]
     n_mc = 600 if thorough else 120
@@ -683,6 +1183,24 @@ def bounded(run):
         if len(m) > 3 and nfrag % 3 == 0:  # foreign patterns from drug-like molecules too
             sub = r.choice([x for x in connected_subsets(t._bonds, 5) if len(x) >= 3])
             _POOL.append((f'cutc:{sorted(sub)}:{t}', cut(t, sub, r, offset=300)))
+    # audit extension: every second target gets atom numbers that are not 1..N in insertion order
+    n_scr = 0
+    rs = domains.rnd('b07scramble')
+    for j in range(1, len(_TARGETS), 2):
+        kind, name, m = _TARGETS[j]
+        _TARGETS[j] = (kind, 'renumbered:' + name, scramble(m, rs))
+        n_scr += 1
+    for txt in (f'audit extension, targets: every second target ({n_scr} of {len(_TARGETS)}) rebuilt with shuffled atom / bond insertion order and atom '
+                f'numbers drawn from 1..2999 (gaps, descending, > 999); {len(FIXED2)} more fixed targets (radicals, explicit H, deuterium, single atoms, '
+                f'N-H and charged aromatic rings, labelled centres / double bonds / allene, 3-4 components)',
+                f'audit extension, patterns per target: {_N_THREE} three- or four-component patterns (<= 8 atoms); {_N_QTWIN} query twins built with '
+                f'QueryContainer.add_atom(Element) / add_bond(Bond) on shuffled numbers from 5000..8999 + a copying union of three and an in-place union '
+                f'of two of them; every third (target, SMARTS) pair with a copy()+remap() instance of the query (numbers from 20..899); '
+                f'{len(SMARTS)} SMARTS now include masked atoms (numbers > 10**9), mapped atoms, CXSMARTS radicals, [H] / [2H], three and four components',
+                'audit extension, options: filtered searches of queries go through the default `_cython` import switch (fallback path); scopes are '
+                'also given as tuple with numbers that are no atoms of the target (every pair with an embedding), frozenset and dict view; the '
+                'scope collection must be unchanged after the call; is_automorphic() == (get_automorphism_mapping() not empty) on every target'):
+        run.bound(txt)
     for txt in (f'search contract targets: {n_atlas} decorations (C/N/O, single/double, {trials} trials) of the connected atlas graphs '
               f'<= {amax} nodes; {n_mc} multi-component targets (unions of 2-3 of them, identical components included); {nfrag} connected '
               f'fragments of 8..{fmax} atoms cut from corpus molecules (seeded); {len(FIXED) + len(FIXED_RAW)} fixed targets with charges, isotopes, a metal, salts and a Kekule ring',
@@ -701,6 +1219,41 @@ def bounded(run):
     res = pmap(_target_item, range(len(_TARGETS)), chunksize=2)
     sec['search'] = round(time.time() - t0, 1)
     res += pmap(_multi_auto_item, MULTI_AUTO)
+    sec['search+auto'] = round(time.time() - t0, 1)
+    # ---- audit extension: stereo filter of queries, match_stereo, call sequences
+    _STQ[:] = STEREO_Q
+    _STT[:] = STEREO_T
+    run.bound(f'stereo filter of QueryIsomorphism.get_mapping: {len(STEREO_Q)} SMARTS with @/@@ marks (first / inner atom, 3 and 4 neighbours, lists, '
+              f'equal neighbours, two components, two marks), / \\ marks (one and two double bonds) and allene marks x {len(STEREO_T)} targets '
+              f'(labelled / unlabelled / partly labelled centres, rings, two components of opposite configuration, dienes, allenes), every second '
+              f'target re-numbered by copy()+remap() to numbers from 1..2999, every third pair with a re-numbered query instance; per pair: '
+              f'unfiltered search on the target and on its mirror image, filtered search, five operators, one scope')
+    res2 = pmap(_stereo_item, range(len(_STQ)))
+    n_stc = 600 if thorough else 120
+    rc = domains.rnd('b07stcorpus')
+    marked = [x for x in domains.corpus_smiles() if ('@' in x or '/' in x or '\\' in x) and len(x) <= 60]
+    _STC[:] = rc.sample(marked, min(n_stc, len(marked)))
+    run.bound(f'stereo filter on corpus molecules: {len(_STC)} seeded corpus molecules whose text carries @ / \\ marks (text <= 60 characters; of '
+              f'{len(marked)} such), as read by smiles(), every second one re-numbered to 1..2999, x {len(STEREO_Q_CORPUS)} generic marked SMARTS; '
+              f'same clauses')
+    res2 += pmap(_stereo_corpus_item, range(len(_STC)), chunksize=2)
+    sec['stereo'] = round(time.time() - t0, 1)
+    _MST[:] = [x for j, x in enumerate(_TARGETS) if x[0] != 'corpus' and len(x[2]) <= (10 if thorough else 9)
+               and all(b.order != 4 for *_, b in x[2].bonds())]
+    _N_MS = 40 if thorough else 15
+    run.bound(f'match_stereo=True: {len(_MST)} non-corpus targets above without aromatic bonds (<= {10 if thorough else 9} atoms), patterns = {_N_MS} seeded '
+              f'connected induced subgraphs of 2..5 atoms + the whole target, cut WITH hydrogen recalculation, rebuilt in shuffled order with numbers '
+              f'from 100..998; completeness only for connected label-free patterns in label-free targets that are outside the documented gaps of C01 and recorded defect families (oracles/o01_gaps, o01_families: the comparison goes through the canonical string); {len(MS_TABLE)} whole-molecule stereo pairs '
+              f'(table MS_TABLE)')
+    res2 += pmap(_ms_item, range(len(_MST)), chunksize=4)
+    res2 += pmap(_ms_table_item, range(len(MS_TABLE)))
+    sec['match_stereo'] = round(time.time() - t0, 1)
+    run.bound(f'call sequences: {len(SEQ)} scripted sequences (4 molecule patterns, 4 SMARTS; odd ones on re-numbered targets): search after each of '
+              f'pattern.add_atom / add_bond / delete_bond / delete_atom / remap and target.add_bond (joining components) / delete_bond / delete_atom / '
+              f'add_atom / remap (all clauses of contract 1), then three generators of the pattern consumed interleaved')
+    res2 += pmap(_seq_item, range(len(SEQ)))
+    sec['sequences'] = round(time.time() - t0, 1)
+    res += res2
     nv = 0
     hit = set()
     for cases, keys, samples, viol in res:
@@ -719,6 +1272,11 @@ def bounded(run):
 
     # ---- fixed edge cases of the scope clause
     edge_cases(run)
+    empty_cases(run)
+    sec['total'] = round(time.time() - t0, 1)
+    import os
+    if os.environ.get('B07_TIMES'):
+        print('b07 seconds', sec, flush=True)
 
 
 def edge_cases(run):
@@ -734,6 +1292,55 @@ def edge_cases(run):
                           f'the embeddings inside an empty scope are none', witness={'contract': 'scope-empty', 'scope': nm}, native=got)
 
 
+def empty_cases(run):
+    """the pattern / the target without atoms: the only injective map of nothing is the empty map (one mapping {}, into ANY target, the empty
+    one included); nothing but the empty pattern embeds into the empty target.  Key family `empty-pattern` is decided by len(pattern) == 0."""
+    from chython.containers import MoleculeContainer
+    from chython import smiles
+    e = MoleculeContainer()
+    for tn, t in (('CCO', smiles('CCO')), ('C.C', smiles('C.C')), ('', MoleculeContainer())):
+        for kw in ({}, {'automorphism_filter': False}, {'searching_scope': set(t)}):
+            run.case(1, key='empty-pattern')
+            try:
+                got = [tup(x) for x in list(e.get_mapping(t, **kw))]
+                bad = None if got == [()] else f'returns {got}'
+            except Exception as ex:
+                got = repr(ex)
+                bad = f'raised {type(ex).__name__}: {ex}'
+            if bad:
+                run.violation('empty-pattern', f'the empty molecule as pattern, target {tn!r}, options {sorted(kw)}: {bad}; exactly one (empty) mapping '
+                              f'is the set of valid embeddings', witness={'contract': 'empty-pattern', 'target': tn, 'kw': sorted(kw)}, native=got)
+        exp = {'<=': True, '<': len(t) > 0, 'is_equal': len(t) == 0, 'rev>=': True}
+        try:
+            nat = {'<=': e <= t, '<': e < t, 'is_equal': e.is_equal(t), 'rev>=': t >= e}
+        except Exception as ex:
+            nat = {'raised': repr(ex)}
+        run.case(1, key='empty-pattern-ops')
+        if nat != exp:
+            run.violation('empty-pattern', f'the empty molecule as pattern, target {tn!r}: operators give {nat}, embeddings say {exp}',
+                          witness={'contract': 'empty-pattern', 'target': tn, 'kw': ['ops']}, native=nat)
+    t = MoleculeContainer()
+    for pn in ('C', 'CC', 'C.O'):
+        p = smiles(pn)
+        run.case(1, key='empty-target')
+        try:
+            got = [tup(x) for x in list(p.get_mapping(t))] + [tup(x) for x in list(p.get_mapping(t, automorphism_filter=False))]
+            nat = {'<=': p <= t, '<': p < t, 'is_equal': p.is_equal(t)}
+            bad = None if not got and not any(nat.values()) else f'returns {got}, operators {nat}'
+        except Exception as ex:
+            got = repr(ex)
+            bad = f'raised {type(ex).__name__}: {ex}'
+        if bad:
+            run.violation(f'empty-target:{pn}', f'pattern {pn} against the empty molecule: {bad}; there is no embedding',
+                          witness={'contract': 'empty-target', 'pattern': pn}, native=got)
+    run.case(1, key='empty-auto')
+    got = list(t.get_automorphism_mapping())
+    if got or t.is_automorphic():
+        run.violation('empty-auto', f'automorphisms of the empty molecule: {got}', witness={'contract': 'empty-auto'}, native=got)
+    run.bound('empty inputs: the empty molecule as pattern against CCO, C.C and the empty molecule (default, unfiltered, full scope; four operators); '
+              'C, CC, C.O against the empty molecule; automorphisms of the empty molecule')
+
+
 # ---------------------------------------------------------------------------------------------------------------- replay
 def replay(rec):
     """re-run the witness natively on the current tree; True when the contract holds for it"""
@@ -743,14 +1350,42 @@ def replay(rec):
     if c == 'compile' and 'adjacency' in w:
         return check_compile_witness(w)
     if c == 'lazy':
-        return lazy_contract(tuple([tuple(x) if isinstance(x, list) else x for x in lst] for lst in w['lists'])) is None
+        return lazy_contract(tuple([tuple(x) if isinstance(x, list) else x for x in lst] for lst in w['lists']), plain=w.get('plain', False)) is None
     if c == 'scope-empty':
         t = domains.parse('CCO')
         p = domains.parse('CC')
         p.remap({1: 11, 2: 12})
         return not get_all(p, t, automorphism_filter=False, searching_scope=set() if w['scope'] == 'set()' else [])
+    if c in ('empty-pattern', 'empty-target', 'empty-auto'):
+        class _R:  # tiny stand-in for Run: did any violation fire?
+            tier = 'quick'
+
+            def __init__(self):
+                self.n = 0
+
+            def case(self, *a, **k):
+                pass
+
+            def bound(self, *a):
+                pass
+
+            def violation(self, key, *a, **k):
+                self.n += key == rec['key']
+        rr = _R()
+        empty_cases(rr)
+        return not rr.n
+    if c == 'ms-table':
+        return not _ms_table_item(w['k'])[3]
+    if c == 'seq':
+        return not _seq_item(w['k'])[3]
     t = load_mol(w['target'])
     out = [0, [], [], []]
+    if c == 'stereo':
+        stereo_contract(load_pat(w['pattern']), t, random.Random(0), 'p', 't', out)
+        return not out[3]
+    if c == 'ms':
+        ms_contract(load_mol(w['pattern']), t, 'p', 't', out, w['complete'])
+        return not out[3]
     if c in ('auto', 'auto-within'):
         auto_contract(t, 'replay', out, whole=c == 'auto')
         return not out[3]
